@@ -416,8 +416,20 @@ func (st *state) run(line string) string {
 		return c08x.ShowMap(d)
 	case f[0] == "eq" && len(f) == 1:
 		e := st.a.Equal(st.b)
-		if e != (st.refA == st.refB) {
-			st.hit("Bit1024.Equal", "algebra", fmt.Sprintf("Equal=%v, reference sets equal=%v", e, st.refA == st.refB))
+		e2 := st.b.Equal(st.a)
+		// set-level expectation, computed from the boolean arrays only
+		var onlyA, onlyB []int
+		for i := 0; i < 1024; i++ {
+			if st.refA[i] && !st.refB[i] {
+				onlyA = append(onlyA, i)
+			}
+			if st.refB[i] && !st.refA[i] {
+				onlyB = append(onlyB, i)
+			}
+		}
+		want := len(onlyA) == 0 && len(onlyB) == 0
+		if e != want || e2 != want {
+			st.hit("Bit1024.Equal", "algebra", fmt.Sprintf("a.Equal(b)=%v b.Equal(a)=%v, yet the sets differ in: only in a %v, only in b %v (equal sets: %v)", e, e2, onlyA, onlyB, want))
 		}
 		return strconv.FormatBool(e)
 	case f[0] == "iter" && len(f) == 8:
@@ -899,6 +911,97 @@ func genCaseSets(r *rng.R) corr.Case {
 	return corr.Case{Tag: "sets", Lines: lines}
 }
 
+// boundary positions for the algebra clause: bit 0 and bit 63 of each of the 16 words
+func boundaryPos(r *rng.R) int {
+	return 64*r.Intn(16) + r.PickInt(0, 63, 63, 62, 1, r.Intn(64))
+}
+
+// genCaseAlgebra: structured pairs for Equal/And/Or/Reverse/OrThenReverse/Len/NLen — b against itself, against itself
+// with 1..3 bits flipped at word-boundary positions, with the same bit flipped in two different words (per-word
+// differences that cancel when summed or xor-folded), with the same bit flipped in all 16 words, against its
+// complement, and empty / full operands.
+func genCaseAlgebra(r *rng.R) corr.Case {
+	ma, _ := genMap(r)
+	switch r.Intn(6) {
+	case 0:
+		ma = [16]uint64{}
+	case 1:
+		for i := range ma {
+			ma[i] = ^uint64(0)
+		}
+	}
+	mb := ma
+	flip := func(p int) { mb[p/64] ^= 1 << uint(p%64) }
+	var cls string
+	switch r.Intn(10) {
+	case 0:
+		cls = "same"
+	case 1:
+		cls = "complement"
+		for i := range mb {
+			mb[i] = ^ma[i]
+		}
+	case 2:
+		cls = "flip-1"
+		flip(boundaryPos(r))
+	case 3:
+		cls = "flip-2"
+		flip(boundaryPos(r))
+		flip(boundaryPos(r))
+	case 4:
+		cls = "flip-3"
+		flip(boundaryPos(r))
+		flip(boundaryPos(r))
+		flip(boundaryPos(r))
+	case 5, 6:
+		// the same bit in two different words: the two per-word differences are equal, so any fold of them
+		// (sum, xor) that is not a plain OR can cancel
+		cls = "same-bit-two-words"
+		bit := r.PickInt(63, 63, 0, 62, r.Intn(64))
+		i := r.Intn(16)
+		j := (i + 1 + r.Intn(15)) % 16
+		flip(64*i + bit)
+		flip(64*j + bit)
+	case 7:
+		cls = "same-bit-all-words"
+		bit := r.PickInt(63, 62, 61, 60, 59, 0, r.Intn(64))
+		for i := 0; i < 16; i++ {
+			flip(64*i + bit)
+		}
+	case 8:
+		cls = "same-bit-2^k-words"
+		bit := r.PickInt(63, 62, 61, 60)
+		k := 1 << uint(64-bit) // 2, 4, 8 or 16 words: k * 2^bit = 2^64
+		if k > 16 {
+			k = 16
+		}
+		start := r.Intn(16)
+		for i := 0; i < k; i++ {
+			flip(64*((start+i)%16) + bit)
+		}
+	default:
+		cls = "empty-vs-full"
+		ma = [16]uint64{}
+		for i := range mb {
+			mb[i] = ^uint64(0)
+		}
+		if r.Bool() {
+			ma, mb = mb, ma
+		}
+	}
+	lines := []string{"new", "load a " + showMapU(ma), "load b " + showMapU(mb), "eq", "and", "or", "orrev", "rev a", "rev b", "len a", "len b"}
+	if r.Chance(1, 2) {
+		// reach the same pair through the setters as well, then compare again
+		p := boundaryPos(r)
+		lines = append(lines, fmt.Sprintf("%s b %d", r.Pick("seti32", "unseti32", "seti16", "unseti16"), p), "eq", "dump b", "len b")
+	}
+	if r.Chance(1, 3) {
+		w := ma[r.Intn(16)]
+		lines = append(lines, fmt.Sprintf("w %x", w), "len64", fmt.Sprintf("alg64 %x", mb[r.Intn(16)]), fmt.Sprintf("alg64 %x", ^w), fmt.Sprintf("alg64 %x", w))
+	}
+	return corr.Case{Tag: "algebra:" + cls, Lines: lines}
+}
+
 func genMalformed(r *rng.R) corr.Case {
 	bad := []string{"", "nope", "new 1", "magic", "magic x", "magic 99999999999", "w", "w xyz", "w 12345678901234567", "w FF", "set64 256", "set64 -1", "set64 a",
 		"len64 1", "alg64", "alg64 zz", "iter64 i7 f 3 0 0 1", "iter64 i8 x 3 0 0 1", "iter64 i8 f -3 0 0 1", "iter64 i8 f 3 0 0", "iter64 i8 f 3 0 a 1",
@@ -999,6 +1102,38 @@ func fixedCases() []corr.Case {
 		}
 		cs = append(cs, corr.Case{Tag: "fixed:full-map", Lines: lines})
 	}
+	// algebra on structured pairs: differences that cancel under a wrapping sum / xor fold, complements, empty / full
+	{
+		mk := func(ps ...int) string {
+			var m [16]uint64
+			for _, p := range ps {
+				m[p/64] |= 1 << uint(p%64)
+			}
+			return showMapU(m)
+		}
+		ops := []string{"eq", "and", "or", "orrev", "rev a", "rev b", "len a", "len b"}
+		pairs := [][2]string{
+			{mk(63), mk(127)},                  // top bit of word 0 vs top bit of word 1
+			{mk(5, 700), mk(5, 700, 255, 639)}, // b vs b plus the top bits of words 3 and 9
+			{mk(), mk(63, 127)},
+			{mk(0), mk(64)},
+			{mk(), mk(0, 64, 128, 192, 256, 320, 384, 448, 512, 576, 640, 704, 768, 832, 896, 960)},
+			{mk(), mk(63, 127, 191, 255, 319, 383, 447, 511, 575, 639, 703, 767, 831, 895, 959, 1023)},
+			{mk(), mk(60, 124, 188, 252, 316, 380, 444, 508, 572, 636, 700, 764, 828, 892, 956, 1020)}, // 16 * 2^60 = 2^64
+			{mk(), mk(62, 126, 190, 254)}, // 4 * 2^62 = 2^64
+			{mk(1, 2, 3), mk(1, 2, 3)},
+			{mk(), mk()},
+			{mk(0), mk(1023)},
+			{mk(1023), mk()},
+		}
+		full := strings.TrimSuffix(strings.Repeat("ffffffffffffffff,", 16), ",")
+		pairs = append(pairs, [2]string{full, full}, [2]string{full, mk()}, [2]string{mk(), full},
+			[2]string{full, "7fffffffffffffff,7fffffffffffffff,ffffffffffffffff,ffffffffffffffff,ffffffffffffffff,ffffffffffffffff,ffffffffffffffff,ffffffffffffffff,ffffffffffffffff,ffffffffffffffff,ffffffffffffffff,ffffffffffffffff,ffffffffffffffff,ffffffffffffffff,ffffffffffffffff,ffffffffffffffff"})
+		for _, pr := range pairs {
+			lines := append([]string{"new", "load a " + pr[0], "load b " + pr[1]}, ops...)
+			cs = append(cs, corr.Case{Tag: "fixed:algebra-pairs", Lines: lines})
+		}
+	}
 	return cs
 }
 
@@ -1009,20 +1144,36 @@ func spec() corr.Spec {
 		Count: func(tier string) int {
 			switch tier {
 			case "quick":
-				return 3000
+				return 2600
 			case "thorough":
 				return 30000
 			}
-			return 40000
+			return 10000 // search: after a broken tie; small scripts, algebra / set classes favoured (see Gen)
 		},
 		Gen: func(r *rng.R, tier string, i int) corr.Case {
+			if tier == "search" {
+				// the widened search must stay fast: the cheap classes (algebra pairs, set histories, single words)
+				// carry most of the weight, the expensive 1024-bit iterator scripts a small share
+				switch x := r.Intn(20); {
+				case x < 8:
+					return genCaseAlgebra(r)
+				case x < 12:
+					return genCaseSets(r)
+				case x < 18:
+					return genCase64(r, "quick")
+				default:
+					return genCase1024(r, "quick")
+				}
+			}
 			switch x := r.Intn(20); {
-			case x < 10:
+			case x < 9:
 				return genCase64(r, tier)
-			case x < 16:
+			case x < 14:
 				return genCase1024(r, tier)
-			case x < 19:
+			case x < 16:
 				return genCaseSets(r)
+			case x < 19:
+				return genCaseAlgebra(r)
 			default:
 				return genMalformed(r)
 			}
@@ -1035,6 +1186,9 @@ func spec() corr.Spec {
 					return true
 				}
 				if strings.HasPrefix(l, "seti") || strings.HasPrefix(l, "unseti") || strings.HasPrefix(l, "set64") {
+					return true
+				}
+				if l == "eq" && strings.HasPrefix(c.Tag, "algebra:") && c.Tag != "algebra:same" {
 					return true
 				}
 			}
@@ -1057,7 +1211,7 @@ func spec() corr.Spec {
 			}
 			return "C08:corr:" + f[0]
 		},
-		Rule: "scripts over one 64-bit word (classes: empty, single bit, at / just above the sparse threshold, sparse, dense, full, full-1, end bits, random) and two 1024-bit registers (member counts 0,1,63,64,65,1024, nearly full, word patterns, random); every script fixes a sparse threshold (-1, 0, 9, 64, random, int32 extremes) through the hook; iterator calls cover 5 widths x 2 directions, n in {-1,0,1,l-1,l,l+1,max,>1000,random}, add at the width's extremes, pos 0..5, slices with exact room, spare cells, one cell short, negative pos; set/unset with boundary and out-of-range indices; a case is non-trivial when an iterator wrote at least one value or a bitmap was mutated; distinct = distinct script text",
+		Rule: "scripts over one 64-bit word (classes: empty, single bit, at / just above the sparse threshold, sparse, dense, full, full-1, end bits, random) and two 1024-bit registers (member counts 0,1,63,64,65,1024, nearly full, word patterns, random); every script fixes a sparse threshold (-1, 0, 9, 64, random, int32 extremes) through the hook; iterator calls cover 5 widths x 2 directions, n in {-1,0,1,l-1,l,l+1,max,>1000,random}, add at the width's extremes, pos 0..5, slices with exact room, spare cells, one cell short, negative pos; set/unset with boundary and out-of-range indices; algebra on structured pairs (b vs b, vs complement, vs b with 1..3 bits flipped at bit 0/63 of any word, the same bit flipped in two / 2^k / all 16 words, empty / full) through Equal (both orders), And, Or, Reverse, OrThenReverse, Len, NLen; a case is non-trivial when an iterator wrote at least one value or a bitmap was mutated; distinct = distinct script text",
 		Assumptions: []string{
 			"slices are shorter than 2^63 (cursor arithmetic modelled in unbounded Int)",
 			"Bit1024 values have 16 words (NewBit1024 / Reverse / And / Or all allocate L16 words); shorter slices built by hand are outside the model",
